@@ -22,6 +22,7 @@ type HistDriverOpts struct {
 	PerHist  func(w *World) // replaces RunHistory when set
 	Only     int            // run only this history index (1-based), 0 = all
 	SignedHalf bool         // every second history runs in signed mode (transactions through the installed ante handler)
+	MintHalf   bool         // every second history starts minting in its first block
 }
 
 // RunHist runs N independent random histories on fresh chains and writes one concatenated trace;
@@ -56,7 +57,11 @@ func RunHist(tracePath, statsPath string, d HistDriverOpts) error {
 		if d.PerHist != nil {
 			d.PerHist(w)
 		} else {
-			w.RunHistory(d.Opts)
+			ho := d.Opts
+			if d.MintHalf {
+				ho.MintInitEarly = i%2 == 0
+			}
+			w.RunHistory(ho)
 		}
 		if w.Halted {
 			st.Halted++
